@@ -693,6 +693,11 @@ func (bg *Reader) cacheSwap(base int64) bool {
 	bg.current, retained = bg.cachePut(bg.current)
 	if retained {
 		bg.current = nil
+	} else if bg.current != nil {
+		// Do not recycle a block that the cache still holds.
+		if exists, _ := bg.cache.Peek(bg.current.Base()); exists {
+			bg.current = nil
+		}
 	}
 	return false
 }
